@@ -1,6 +1,7 @@
 package main
 
 import (
+	"encoding/json"
 	"fmt"
 	"strings"
 	"time"
@@ -115,6 +116,17 @@ func c01ThroughPipeline(c *hx.Ctx) {
 				txnsA = append(txnsA, txn.SidetreeTxn{Namespace: hx.Namespace, AnchorString: anchor, TransactionTime: t - 2, TransactionNumber: 7, ProtocolVersion: p.GenesisTime, CanonicalReference: fmt.Sprintf("junk%d", k)})
 				nJunk++
 			}
+			// a copy of the owner's operation with a damaged signature (same type, same reveal value) anchored in a transaction of
+			// its own just before the owner's one: it is stored, and ignored at resolution
+			if k > 0 && r.Chance(1, 2) {
+				if dmg := damageSignature(b.Req); dmg != nil {
+					di, derr := A.v.Handler.PrepareTxnFiles([]*operation.QueuedOperation{{Type: operation.Type(b.Desc.Type), OperationRequest: dmg, UniqueSuffix: d.Suffix, Namespace: hx.Namespace}})
+					if derr == nil {
+						txnsA = append(txnsA, txn.SidetreeTxn{Namespace: hx.Namespace, AnchorString: di.AnchorString, TransactionTime: t - 1, TransactionNumber: 6, ProtocolVersion: p.GenesisTime, CanonicalReference: fmt.Sprintf("damaged%d", k)})
+						nForged++
+					}
+				}
+			}
 			// the owner's operation first, the stranger's operations for the same DID behind it in the same cut
 			batch := []*operation.QueuedOperation{q(b)}
 			for f := 0; k > 0 && f < r.Intn(3); f++ {
@@ -180,4 +192,26 @@ func c01ThroughPipeline(c *hx.Ctx) {
 		c.Count("pipeline_runs")
 		c.Distinct(fmt.Sprintf("c01pipe|%d|%d|%d|%d|%d", len(owner), nForged, nDeferred, nJunk, i))
 	})
+}
+
+// damageSignature returns the request with one character of the signature segment of its signed data changed (nil if the request
+// has no signed data).
+func damageSignature(req []byte) []byte {
+	var m map[string]interface{}
+	if json.Unmarshal(req, &m) != nil {
+		return nil
+	}
+	sd, _ := m["signedData"].(string)
+	parts := strings.Split(sd, ".")
+	if len(parts) != 3 || len(parts[2]) < 4 {
+		return nil
+	}
+	sig := []byte(parts[2])
+	if sig[2] == 'A' {
+		sig[2] = 'B'
+	} else {
+		sig[2] = 'A'
+	}
+	m["signedData"] = parts[0] + "." + parts[1] + "." + string(sig)
+	return ref.MustJCS(m)
 }
